@@ -20,7 +20,9 @@ S = alpha.S
 # (lon0, lat0, dh) as decimal strings
 TABLE = [('0', '0', '0.1'), ('-0.35', '5.95', '0.1'), ('100.05', '-47.95', '0.05'), ('-125.4', '31.5', '0.1'),
          ('164.5', '-47.95', '0.1'), ('-180', '-90', '2'), ('179', '89', '0.5'), ('0.001', '0.002', '0.001'),
-         ('5.95', '-0.35', '0.2'), ('-47.95', '100.05', '0.25'), ('12', '41', '1'), ('-0.3', '0.3', '0.3')]
+         ('5.95', '-0.35', '0.2'), ('-47.95', '100.05', '0.25'), ('12', '41', '1'), ('-0.3', '0.3', '0.3'),
+         # anchors whose float sum with the spacing rounds one ulp above the decimal lattice (0.2 + 0.1, 36.2 + 0.1 ...)
+         ('0.2', '36.2', '0.1'), ('-63.8', '0.2', '0.1')]
 
 
 def lattice_edges(x0, dh, n):
@@ -42,7 +44,7 @@ def build_region(case, xe, ye, dh, how):
     return CartesianGrid2D(polys, dh)
 
 
-def axis_probes(edges, n, dh_float, full):
+def axis_probes(edges, n, dh_float, full, closing=None):
     """All (value, pos) probes of one axis: every class of every bin incl. below-first and beyond-last."""
     out = []
     seen = set()
@@ -54,6 +56,11 @@ def axis_probes(edges, n, dh_float, full):
             if v not in seen:
                 seen.add(v)
                 out.append((v, pos))
+    # the closing boundary of the last cell on the decimal lattice (anchor + n*dh as a decimal; the float sum of the last
+    # edge and dh may round one ulp away from it): it belongs to no cell
+    if closing is not None and closing not in seen:
+        seen.add(closing)
+        out.append((closing, n * S))
     # far outside on both sides
     for v in (edges[0] - 7.3 * dh_float, edges[-1] + 9.1 * dh_float, edges[-1] + 1000.0):
         out.append((v, alpha.classify(v, edges, h=dh_float)))
@@ -116,9 +123,9 @@ def observe(region, lons, lats, numpy):
     return idx, masked.astype(numpy.int64), kept, cnt
 
 
-def region_trace(chk, name, region, cmap, nx, ny, xe, ye, dh_float, numpy, full, rng=None, extra_points=0):
-    px = axis_probes(xe, nx, dh_float, full)
-    py = axis_probes(ye, ny, dh_float, full)
+def region_trace(chk, name, region, cmap, nx, ny, xe, ye, dh_float, numpy, full, rng=None, extra_points=0, closing=(None, None)):
+    px = axis_probes(xe, nx, dh_float, full, closing[0])
+    py = axis_probes(ye, ny, dh_float, full, closing[1])
     if len(px) * len(py) > 60000:
         # large region: all x-probes against a sample of y-probes and vice versa
         sy = rng.sample(py, max(30, 60000 // len(px)))
@@ -172,7 +179,8 @@ def run(chk, replay=None):
         xe, ye = d['xe'], d['ye']
         case = d['case']
         region = build_region(case, xe, ye, d['dh'], d['how'])
-        tr, pts = region_trace(chk, 'replay', region, d['cmap'], case['nx'], case['ny'], xe, ye, d['dh'], numpy, True, rng)
+        tr, pts = region_trace(chk, 'replay', region, d['cmap'], case['nx'], case['ny'], xe, ye, d['dh'], numpy, True, rng,
+                               closing=tuple(d.get('closing', (None, None))))
         acc, rej = chk.validate_traces('TraceCartRegion', 'Trace_CartRegion.cfg', [tr] if tr else [])
         if rej or tr is None:
             chk.violation(replay['signature'], d)
@@ -195,20 +203,24 @@ def run(chk, replay=None):
     traces, meta = [], []
     reps = 1 if quick else 3
     for ci, case in enumerate(cases):
-        for rep in range(reps):
-            x0, y0, dh = TABLE[(ci * 5 + rep * 7) % len(TABLE)]
+        # one-row / one-column regions (their far side is closed by arithmetic, not by an edge) go through the whole table
+        single = min(case['nx'], case['ny']) == 1
+        for rep in (range(len(TABLE)) if single else range(reps)):
+            x0, y0, dh = TABLE[rep] if single else TABLE[(ci * 5 + rep * 7) % len(TABLE)]
             nx, ny = case['nx'], case['ny']
             xe, ye = lattice_edges(x0, dh, nx), lattice_edges(y0, dh, ny)
             dhf = float(Fraction(dh))
             how = 'from_origins' if (ci + rep) % 2 == 0 else 'polygons'
             region = guarded(build_region, case, xe, ye, dhf, how)
-            m = {'case': case, 'xe': xe, 'ye': ye, 'dh': dhf, 'how': how, 'cmap': case['cmap']}
+            m = {'case': case, 'xe': xe, 'ye': ye, 'dh': dhf, 'how': how, 'cmap': case['cmap'],
+                 'closing': [lattice_edges(x0, dh, nx + 1)[-1], lattice_edges(y0, dh, ny + 1)[-1]]}
             shape = 'single-row-or-column' if min(nx, ny) == 1 else 'general'
             if isinstance(region, Raised):
                 chk.violation('gen:build raised:%s' % shape, dict(m, err=repr(region)))
                 continue
+            closing = (lattice_edges(x0, dh, nx + 1)[-1], lattice_edges(y0, dh, ny + 1)[-1])
             tr, pts = region_trace(chk, 'gen%d' % ci, region, case['cmap'], nx, ny, xe, ye, dhf, numpy,
-                                   full=(not quick) or ci % 10 == 0, rng=rng)
+                                   full=((not quick) or ci % 10 == 0) and not (single and rep >= reps), rng=rng, closing=closing)
             if tr is None:
                 chk.violation('gen:operation raised:%s' % shape, dict(m, err=pts))
                 continue
